@@ -1137,3 +1137,42 @@ def r_odswidth(ctx, rep):
         else:
             rep.violation("R-ODSWIDTH", key, loc(where), "the `%s` case emits %r cells per grid row, the used rectangle is %r wide: every later row of the range is displaced" % (label, tot, W))
     rep.floor("R-ODSWIDTH", 4, "flush of interior empty rows + the three arms of the row-length comparison")
+
+
+# ----------------------------------------------------------------------------------------------
+# R-BENIGN: inter-element whitespace and comments never abort a pull loop
+
+def r_benign(ctx, rep):
+    """C04 / C16 (every well-formed document): the readers never trim text (R-XMLCFG), so a pretty-printed part
+    delivers whitespace Text events -- and possibly Comment events -- between the elements a loop is waiting for.
+    28 of the 30 pull loops of the crate let such events fall into an ignoring catch-all; the rule requires it of
+    all of them: the first unguarded arm that an Event::Text / Event::Comment reaches must not raise an error."""
+    from .r_xml import event_matches, _chain
+    from .kit import pat_covers, always_leaves
+    F = ctx.facts("default")
+    n = 0
+    for fn in F.user_fns():
+        k = 0
+        for em in event_matches(fn):
+            if em["loop"] is None:
+                continue
+            k += 1
+            n += 1
+            for V in ("Text", "Comment"):
+                chain = _chain(em["wrapped"], V)
+                hit = None
+                for arm in em["match"]["arms"]:
+                    if pat_covers(arm["pat"], chain) and arm.get("guard") is None:
+                        hit = arm
+                        break
+                key = "%s|R-BENIGN|loop#%d|%s" % (fn.name, k, V)
+                if hit is None:
+                    rep.holds("R-BENIGN", key, loc(em["match"]), "no unguarded arm takes Event::%s (it is skipped)" % V, nontrivial=False)
+                    continue
+                raises = any((path_def(x) or "").endswith("Result::Err") for x in walk_k(hit["body"], "Path")) and always_leaves(hit["body"], set())
+                if raises:
+                    rep.violation("R-BENIGN", key, loc(hit), "%s: an Event::%s between the expected elements (whitespace of a pretty-printed document, a comment) reaches an arm that returns an error: a well-formed document fails to open" % (fn.name, V))
+                else:
+                    rep.holds("R-BENIGN", key, loc(hit), "Event::%s is consumed or ignored" % V)
+    if n < 25:
+        rep.violation("R-BENIGN", "R-BENIGN|floor", "-", "only %d pull loops found (25 confirmed by hand)" % n)
